@@ -20,9 +20,9 @@ prop("C03", opts={"memprop": "C03"}, also=["C14/wrong-deadline", "C14/early-expi
      nontrivial=[["owner_replied"], ["timed_out"], ["owner_left_with_inflight"]],
      required_probes=["owner_replied", "timed_out", "owner_left_with_inflight", "caller_left_with_inflight", "duplicate_reply", "forged_reply", "reply_unknown_or_late", "self_routed"])
 
-prop("C04", opts={"memprop": "C04"},
-     mix=[("c04", "default", 3), ("c04", "small", 2)],
-     quick_mix=[("c04", "default", 2), ("c04", "small", 1)],
+prop("C04", opts={"memprop": "C04", "shadowprop": "C04"},
+     mix=[("c04", "default", 3), ("c04", "small", 2), ("c04+af", "default", 1.5), ("c15h", "heapcap", 1)],
+     quick_mix=[("c04", "default", 2), ("c04", "small", 1), ("c04+af", "default", 1), ("c15h", "heapcap", 0.7)],
      quick_s=25, thorough_s=600,
      rule="seeded sequences of add/remove/change/set/call/get by several peers over a small adversarial path universe, compared after every step with a reference map through responses, "
           "an observer's fetch-all replica and get results; non-trivial: >=3 notifications and >=1 refused request; distinct by trace hash",
@@ -158,7 +158,10 @@ prop("C11",
 prop("C15", kind="c15", level="fault_enumeration", corpus=44,
      mix=[("c15", "default", 1), ("c15", "small", 1), ("c15", "wsmall", 1), ("c15", "batch1", 1)],
      quick_mix=[("c15", "default", 1)],
-     quick_s=90, thorough_s=1500,
+     random_mix=[("base+af", "default", 2), ("c03+af", "default", 1), ("c05+af", "default", 1), ("c01+af", "small", 1), ("c04+af", "batch1", 1), ("c16+af", "default", 0.5), ("c15h", "heapcap", 3)],
+     random_mix_quick=[("base+af", "default", 1), ("c04+af", "default", 1), ("c15h", "heapcap", 1.5)],
+     random_quick_s=25, random_thorough_s=500,
+     quick_s=100, thorough_s=1800,
      rule="fault enumeration: a fixed corpus of 44 short scenarios (40 of 4-14 operations each, drawn once from the base, fetch, routing, connection-end, access-control, WebSocket, HTTP, matcher, deadline and namespace generators: every request type, "
           "raw/unix/WebSocket connect and teardown, failed handshakes, routed requests with reply, timeout and disconnects, batches, authentication) is executed once to count its allocations N, then once for every k in 1..N with exactly the k-th "
           "allocation (malloc/calloc/realloc of the daemon, cJSON and zlib included) returning NULL. Oracle: no sanitizer report or crash; start-up failures end in a clean non-zero exit; until the fault the reference model, afterwards at most one response "
